@@ -2,12 +2,12 @@
 CFG = dict(
     models=[("gen", "Gen_Consts"), ("gen", "Gen_Token"), ("gen", "Gen_Prec"), ("gen", "Gen_ParserTables"), ("gen", "Gen_ByteClass"),
             ("model", "Ast"), ("model", "Lexer"), ("model", "Parser"), ("model", "Printer"), ("model", "AstWf"), ("model", "Frontend"), ("model", "TokPrint")],
-    proofs=[("proofs", "Ast_ind"), ("proofs", "Front_tables"), ("proofs", "Printer_proofs")],
+    proofs=[("proofs", "Ast_ind"), ("proofs", "Front_tables"), ("proofs", "Printer_proofs"), ("proofs", "Parser_eqns"), ("proofs", "Parser_proofs"), ("proofs", "Parser_mono"), ("proofs", "Roundtrip_expr")],
     extract="Extract_Front", module="front_model", driver="drv_front.ml", ocaml_extra=["zhelpers.ml", "astio.ml"],
     trusted_base=["number conversion strconv.ParseInt/ParseFloat is an oracle argument of the parser model",
                   "strconv.Quote modelled on the byte universe without valid multi-byte UTF-8 sequences",
                   "token interning and Go map iteration order are not modelled (the model has neither): they are exercised on the implementation only"],
     assumptions=["tables, precedences and byte classes are regenerated from /repo on every run"],
-    level_text="The full statement C03_idempotent is stated and REFUTED on the faithful model by computed witnesses for the finding classes shared with C02 (the formatted text parses to a different tree); fixpoint examples incl. comments are proved by vm_compute; determinism is a theorem of the model by construction (C03_format_is_a_function) and, for what the model cannot express (interning history, map iteration order, process), checked on the implementation. Per run, f(x) and f(f(x)) in both modes are computed by the implementation and by the extracted Coq models and must agree byte for byte; f(f(x)) = f(x), repeated and fresh-process formatting and the single final newline are checked on every generated program; any failure outside the listed signatures is a violation.",
+    level_text="Proved without bound for the expression fragment of coq/model/TokPrint.v (C03_fragment_fixpoint: re-parsing the tokens of formatted text and formatting again emits the same tokens, both modes; corollary of C02's fragment theorem). The full statement C03_idempotent is stated and REFUTED on the faithful model by computed witnesses for the finding classes shared with C02 (the formatted text parses to a different tree); fixpoint examples incl. comments are proved by vm_compute; determinism is a theorem of the model by construction (C03_format_is_a_function) and, for what the model cannot express (interning history, map iteration order, process), checked on the implementation. Per run, f(x) and f(f(x)) in both modes are computed by the implementation and by the extracted Coq models and must agree byte for byte; f(f(x)) = f(x), repeated and fresh-process formatting and the single final newline are checked on every generated program; any failure outside the listed signatures is a violation.",
     level_note="Trusted: Coq kernel, extraction, OCaml driver, Go harness, translator; no axioms. Go code modelled, not verified.",
 )
